@@ -72,3 +72,14 @@ CHECKS["C36"] = dict(
     level_note="Parent links that would need the network (SyncPreviousBlocks) are not generated, except directly above the LFB where the code must answer 'none' locally. finalizeRound's channel hand-off is not driven here.",
     parts=[dict(pkg=CHN, run="^TestC36_ComputeFinalizedBlock$", quick=3000, thorough=200000, floor=50)],
 )
+MSC = "0chain.net/smartcontract/minersc"
+CHECKS["C39"] = dict(
+    level="exploration", engine="E2",
+    technique="property-based testing with validity-predicate oracles (size, reserved seats, stake preference), metamorphic insertion-order test, statistical tie-fairness test over 256 seeds",
+    level_text="Generated candidate sets with many stake ties are reduced by the real SimpleNodes.reduce and by MinerSmartContract.reduceShardersList; the result is checked against validity predicates derived from the statement rather than one expected answer, for determinism across map insertion orders, and for seed-only tie breaking (every tied candidate wins for some seed and loses for some seed).",
+    level_note="The tie-fairness oracle covers the final cut-off among non-reserved candidates; the internal tie-break among previous members for reserved seats is not judged (the statement fixes them only 'by highest stake'). False-alarm probability of the fairness test < 1e-14 per case.",
+    parts=[
+        dict(pkg=MSC, run="^TestC39_Reduce$", quick=4000, thorough=300000, floor=50),
+        dict(pkg=MSC, run="^TestC39_TieFairness$", quick=150, thorough=8000),
+    ],
+)
